@@ -12,6 +12,7 @@ of the nine residual sites is excluded —
   `callArity`            the table gives callee and call the same parameter count;
   `paramRange`           `WSFn`: every parameter of a hoisted function carries its `LocalId`;
   `flowEscape`           `comot` / `next` do not leave a function body (`FlowAll`);
+  (a statement the plan removes is skipped by `execStmts` and needs no guarantee: `stmtSkipped`)
   `builtinArity`         a global builtin is called with one argument;
   `numLit`               the number lexemes parse (assumption on the `NumOps` instance) — or allowed;
   `assignIndexEmpty`     the target of an index assignment has an index — or allowed;
@@ -260,8 +261,16 @@ theorem FInv.push {C : SCfg} {st : State N} (h : FInv C st.env) (kind : ScopeKin
   · exact h S hS fd hfd
 
 theorem okStmts_tail {C : SCfg} {d : Bool} {s : Stmt} {rest : List Stmt} (h : okStmts C d (s :: rest) = true) :
-    okStmt C d s = true ∧ okStmts C d rest = true := by
+    (stmtSkipped C.plan s = true ∨ okStmt C d s = true) ∧ okStmts C d rest = true := by
   simpa [okStmts] using h
+
+/-- A statement the evaluator does not skip has the guarantees. -/
+theorem okStmt_of_not_pruned {C : SCfg} {cfg : RunCfg} (hpl : C.plan = cfg.plan) {d : Bool} {s : Stmt}
+    (h : stmtSkipped C.plan s = true ∨ okStmt C d s = true) (hnp : ¬ Plan.prunesStmt cfg.plan s.sid = true) :
+    okStmt C d s = true := by
+  rcases h with a | a
+  · exact absurd (by rw [← hpl]; exact stmtSkipped_prunes a) hnp
+  · exact a
 
 theorem FInv.hoist {C : SCfg} (cfg : RunCfg) (hpl : C.plan = cfg.plan) {d : Bool} : ∀ (ss : List Stmt) (st : State N),
     okStmts C d ss = true → FInv C st.env → FInv C (hoist cfg ss st).env := by
@@ -273,6 +282,10 @@ theorem FInv.hoist {C : SCfg} (cfg : RunCfg) (hpl : C.plan = cfg.plan) {d : Bool
     obtain ⟨hs, hrest⟩ := okStmts_tail hok
     cases s with
     | fnDef name nsp params body fn sid sp =>
+      have hs : okStmt C d (.fnDef name nsp params body fn sid sp) = true := by
+        rcases hs with a | a
+        · simp [stmtSkipped] at a
+        · exact a
       simp only [Eval.hoist]
       split
       · exact ih st hrest h
@@ -390,7 +403,7 @@ theorem flow_zero (C : SCfg) (cfg : RunCfg) : FlowAll (N := N) C cfg 0 :=
   ⟨fun _ _ _ _ _ _ h => by simp [execStmt] at h, fun _ _ _ _ _ _ h => by simp [execStmts] at h,
    fun _ _ _ _ _ _ h => by simp [execBlock] at h, fun _ _ _ _ _ _ h => by simp [loopW] at h⟩
 
-theorem flow_step {C : SCfg} {cfg : RunCfg} {f : Nat} (ih : FlowAll (N := N) C cfg f) :
+theorem flow_step {C : SCfg} {cfg : RunCfg} (hpl : C.plan = cfg.plan) {f : Nat} (ih : FlowAll (N := N) C cfg f) :
     FlowAll (N := N) C cfg (f + 1) := by
   refine ⟨?_, ?_, ?_, ?_⟩
   · intro d s st flow st' hok h hj
@@ -454,7 +467,9 @@ theorem flow_step {C : SCfg} {cfg : RunCfg} {f : Nat} (ih : FlowAll (N := N) C c
       simp only [execStmts] at h
       split at h
       · exact ih.stmts d rest _ _ _ hrest h hj
-      · obtain ⟨flow1, st1, h1, h2⟩ := Res.bind_eq_ok h
+      · next hnp =>
+        have hs := okStmt_of_not_pruned hpl hs hnp
+        obtain ⟨flow1, st1, h1, h2⟩ := Res.bind_eq_ok h
         cases flow1 with
         | cont => exact ih.stmts d rest _ _ _ hrest h2 hj
         | ret v => cases h2; cases hj
@@ -481,9 +496,9 @@ theorem flow_step {C : SCfg} {cfg : RunCfg} {f : Nat} (ih : FlowAll (N := N) C c
       | next => exact ih.loop _ _ _ _ _ _ h4
     · cases h3; rfl
 
-theorem flow_all (C : SCfg) (cfg : RunCfg) : ∀ f, FlowAll (N := N) C cfg f
+theorem flow_all (C : SCfg) (cfg : RunCfg) (hpl : C.plan = cfg.plan) : ∀ f, FlowAll (N := N) C cfg f
   | 0 => flow_zero C cfg
-  | f + 1 => flow_step (flow_all C cfg f)
+  | f + 1 => flow_step hpl (flow_all C cfg hpl f)
 
 end
 
@@ -825,7 +840,8 @@ theorem safe_stmts_step (H : Hyp N A C cfg) (h : SafeAll (N := N) A C cfg f) (Γ
     obtain ⟨h3, h4⟩ := okStmts_tail hok
     by_cases hpr : Plan.prunesStmt cfg.plan s.sid = true
     · simp only [execStmts, dyn_plan, hpr, ↓reduceIte]; safe_close h hp hst
-    · simp only [execStmts, dyn_plan, hpr]; safe_close h hp hst
+    · have h3' := okStmt_of_not_pruned H.plan h3 hpr
+      simp only [execStmts, dyn_plan, hpr]; safe_close h hp hst
 
 theorem safe_loop_step (H : Hyp N A C cfg) (h : SafeAll (N := N) A C cfg f) (Γ : List Binder)
     (c : Expr) (b : Block) (sp : Span) (st : State N) (hm : MR cfg Γ st) (hc : wsExpr Γ c = true)
@@ -1070,7 +1086,7 @@ theorem safe_expr_step (H : Hyp N A C cfg) (h : SafeAll (N := N) A C cfg f) (Γ 
             simp only
             refine Safe.bind (h.block _ false fd.body _ hmP hbody hfnok.2 (hFI1.push _ _ _ _)).1 ?_
             intro flow st3 e3
-            have hj := (flow_all (N := N) C cfg.dyn f).block false fd.body _ flow st3 hfnok.2 e3
+            have hj := (flow_all (N := N) C cfg.dyn H.plan f).block false fd.body _ flow st3 hfnok.2 e3
             cases flow with
             | cont => exact Safe.ok _ _
             | ret v => exact Safe.ok _ _
